@@ -10,9 +10,9 @@ use crate::driver::{expected_obs, observe_response, RespObs};
 use crate::engine::{guarded, hex, show, unhex, Report, Tier, Violation};
 use crate::refmodel::head;
 
-pub const RULE: &str = "every head of the small-scope grammar: version {1.0,1.1} x status {101,200,204,299,301,302,304,307,399,404,500,999} x reason {none, empty, OK, 300-byte with obs-text} x all ordered field lists of length 0..=2 (thorough 0..=3) over a 9-entry pool (repeated names, no OWS, OWS both sides, empty value, obs-text, Location, Content-Length, Set-Cookie) plus heads with 0,1,127,128 (accepted) and 129,130,200 (rejected) fields; for every head EVERY prefix length and the head followed by {1 byte, garbage, a second response}; entry points Flow::try_response (GET, HEAD), Call::try_response, parser::try_parse_response::<128>; each prefix on a fresh object AND all prefixes in growing order on one object followed by the complete head. distinct = distinct (head, entry point) pairs whose every prefix was checked";
+pub const RULE: &str = "every head of the small-scope grammar: version {1.0,1.1} x status {101,200,204,299,301,302,304,307,399,404,500,999} x reason {none, empty, OK, 300-byte with obs-text} x all ordered field lists of length 0..=2 (thorough 0..=3) over a 9-entry pool (repeated names, no OWS, OWS both sides, empty value, obs-text, Location, Content-Length, Set-Cookie) plus heads with 0,1,127,128 (accepted) and 129,130,200 (rejected) fields; for every head EVERY prefix length and the head followed by {1 byte, garbage, a second response}; entry points Flow::try_response (GET flow, HEAD flow, POST flow with Expect: 100-continue whose caller gave up waiting), Call::try_response, parser::try_parse_response::<128>; each prefix on a fresh object AND all prefixes in growing order on one object followed by the complete head. distinct = distinct (head, entry point) pairs whose every prefix was checked";
 
-const FRONTS: [&str; 4] = ["flow-GET", "flow-HEAD", "call", "parser"];
+const FRONTS: [&str; 5] = ["flow-GET", "flow-HEAD", "call", "parser", "flow-POST-expect"];
 
 #[derive(Debug)]
 enum Out {
@@ -25,8 +25,12 @@ enum Out {
 fn call_front(front: &str, bases: &Bases, input: &[u8]) -> Result<(Out, bool), String> {
     // returns (outcome, side-condition ok: not ready & state unchanged when NeedMore)
     match front {
-        "flow-GET" | "flow-HEAD" => {
-            let mut f = if front == "flow-GET" { bases.get.clone() } else { bases.head.clone() };
+        "flow-GET" | "flow-HEAD" | "flow-POST-expect" => {
+            let mut f = match front {
+                "flow-GET" => bases.get.clone(),
+                "flow-HEAD" => bases.head.clone(),
+                _ => bases.post_expect.clone(),
+            };
             let fp = f.verif_fingerprint();
             match f.try_response(input) {
                 Ok((0, None)) => Ok((Out::NeedMore, !f.can_proceed() && f.verif_fingerprint() == fp)),
@@ -57,10 +61,14 @@ struct Bases {
     get: ureq_proto::client::flow::Flow<(), ureq_proto::client::flow::state::RecvResponse>,
     head: ureq_proto::client::flow::Flow<(), ureq_proto::client::flow::state::RecvResponse>,
     call: ureq_proto::client::call::Call<ureq_proto::client::call::state::RecvResponse, ()>,
+    /// POST with Expect: 100-continue whose caller gave up waiting and sent the body: the flow
+    /// still tolerates one late 100, every other head must be parsed exactly as anywhere else
+    post_expect: ureq_proto::client::flow::Flow<(), ureq_proto::client::flow::state::RecvResponse>,
 }
 
 fn bases() -> Bases {
-    Bases { get: recv_response_flow("GET"), head: recv_response_flow("HEAD"), call: recv_response_call("GET") }
+    let pe = crate::driver::ReqCfg::new("POST", "1.1", "http://a.test/p").orig("content-length", "0").orig("expect", "100-continue");
+    Bases { get: recv_response_flow("GET"), head: recv_response_flow("HEAD"), call: recv_response_call("GET"), post_expect: super::flows::recv_response_flow_cfg(&pe).expect("post-expect flow") }
 }
 
 fn err_variant(e: &str) -> String {
@@ -138,6 +146,7 @@ fn incremental(h: &[u8], front: &str, bases: &Bases) -> Option<(String, String, 
         let mut flow = match front {
             "flow-GET" => Some(bases.get.clone()),
             "flow-HEAD" => Some(bases.head.clone()),
+            "flow-POST-expect" => Some(bases.post_expect.clone()),
             _ => None,
         };
         let mut call = if front == "call" { Some(bases.call.clone()) } else { None };
